@@ -500,9 +500,15 @@ Definition p_step (cfg : config) (t0 : Z) (m : mon) (pre : dump) (e : event) (o 
                     end
                   | _, _ => ""
                   end) (d_ops post)) in
+  (* a panic inside the scheduler (its "impossible state" assertions) or a wedged scheduler *)
+  let e_panic := first_nonempty (map (fun x =>
+                   match x with
+                   | OPanic what => if String.eqb what "hang" then "C06:calls-blocked-forever" else "C01:scheduler-panicked"
+                   | _ => ""
+                   end) o) in
   let e_exec := match e with
                 | EStartExecute c a _ => first_nonempty [c07_exec o; c03_exec pre post a; c05_exec cfg t0 pre post c a o]
                 | _ => ""
                 end in
-  (m, first_nonempty [c01_dump post; e_sync; e_stream; e_lost; e_cancel; c03_dump post; c03_waited post; c04_dump post; e_exec; c05_assign pre post;
+  (m, first_nonempty [e_panic; c01_dump post; e_sync; e_stream; e_lost; e_cancel; c03_dump post; c03_waited post; c04_dump post; e_exec; c05_assign pre post;
                       c06_dump m post; c06_final m post; e_arm; e_learn; c07_background post; c07_learners_match m post]).
